@@ -75,9 +75,24 @@ def _class_names(n, ci):
 
 
 def instantiate_branch_sees_through(fn: ast.FunctionDef, subj: str) -> bool:
-    """some `isinstance(subj, Instantiate)` / `case Instantiate(..)` branch re-dispatches on subj.simplify()"""
+    """some `isinstance(subj, Instantiate)` / `case Instantiate(..)` branch re-dispatches on subj.simplify() ALL THE WAY: simplify()
+    removes one notation level, and a notation may be defined as an application of another notation, so the branch must re-enter
+    the dispatcher (a call of this very function, or of a method of the expansion) or be a `while isinstance(..)` loop; expanding
+    once and falling through to the concrete tests handles only one level"""
+    def simp_of_subj(x) -> bool:
+        return isinstance(x, ast.Call) and isinstance(x.func, ast.Attribute) and x.func.attr == 'simplify' \
+            and isinstance(x.func.value, ast.Name) and x.func.value.id == subj and not x.args
+
     for node in ast.walk(fn):
         body = None
+        if isinstance(node, ast.While):
+            t = node.test
+            if isinstance(t, ast.Call) and isinstance(t.func, ast.Name) and t.func.id == 'isinstance' and len(t.args) == 2 \
+                    and isinstance(t.args[0], ast.Name) and t.args[0].id == subj and 'Instantiate' in ast.unparse(t.args[1]):
+                # while isinstance(subj, Instantiate): subj = subj.simplify()
+                if any(isinstance(st, ast.Assign) and len(st.targets) == 1 and isinstance(st.targets[0], ast.Name)
+                       and st.targets[0].id == subj and simp_of_subj(st.value) for st in node.body):
+                    return True
         if isinstance(node, ast.If):
             t = node.test
             if isinstance(t, ast.Call) and isinstance(t.func, ast.Name) and t.func.id == 'isinstance' and len(t.args) == 2 \
@@ -90,8 +105,14 @@ def instantiate_branch_sees_through(fn: ast.FunctionDef, subj: str) -> bool:
             continue
         for st in body:
             for x in ast.walk(st):
-                if isinstance(x, ast.Call) and isinstance(x.func, ast.Attribute) and x.func.attr == 'simplify' \
-                        and isinstance(x.func.value, ast.Name) and x.func.value.id == subj:
+                if not isinstance(x, ast.Call):
+                    continue
+                # re-entry: f(.., subj.simplify(), ..) where f is this function (by name, cls.f, Class.f, self.f)
+                callee = x.func.attr if isinstance(x.func, ast.Attribute) else (x.func.id if isinstance(x.func, ast.Name) else None)
+                if callee == fn.name and any(simp_of_subj(a) for a in x.args):
+                    return True
+                # dynamic re-dispatch: subj.simplify().<method>(..)
+                if isinstance(x.func, ast.Attribute) and simp_of_subj(x.func.value):
                     return True
     return False
 
